@@ -161,6 +161,22 @@ theorem C05_bounds_all_coordinates (g : Geom) (b : Bounds) (hto : timeOnly g = f
           have c4 := hb.contains q4 (hshell q4 hq4)
           grind
 
+/-- the bounds are *determined*: an observed 4-tuple passes the executable statement
+    `boundsHolds` (contains every coordinate, every side attained; time-only types over the
+    band `[0, MAXF]`) iff it is the model's bounds -/
+theorem C05_bounds_holds_iff (g : Geom) (b b' : Bounds) (hh : HolesInside g = true)
+    (h : g.bounds = some b') : boundsHolds g b = true ↔ b = b' := by
+  have hspec : IsBoundsOf b' (specPts g) := by
+    unfold specPts
+    by_cases hto : timeOnly g = true
+    · simp only [hto, if_true]; exact C05_bounds_minmax g b' h
+    · simp only [hto]; exact C05_bounds_all_coordinates g b' (by simpa using hto) hh h
+  unfold boundsHolds
+  rw [isBoundsOfB_iff]
+  constructor
+  · intro hb; exact isBoundsOf_unique b b' _ hb hspec
+  · rintro rfl; exact hspec
+
 /-! ### the shapely conversion -/
 
 /-- kind of the converted shape, per geometry type -/
@@ -253,6 +269,20 @@ theorem C05_conversion_box (s l e h t : Rat) :
 
 /-! ### features -/
 
+private theorem boundsFeatures_ok (b : Bounds) (n : Nat) :
+    ∀ nv ∈ boundsFeatures b, ofBounds nv.1 b n = some nv.2 := by
+  intro nv hnv
+  simp only [boundsFeatures, List.mem_cons, List.not_mem_nil, or_false] at hnv
+  rcases hnv with rfl | rfl | rfl | rfl <;> simp [ofBounds, fDuration, fLow, fHigh, fBandwidth]
+
+private theorem segFeatures_ok (b : Bounds) (n : Nat) :
+    ∀ nv ∈ boundsFeatures b ++ [(fSegments, (n : Rat))], ofBounds nv.1 b n = some nv.2 := by
+  intro nv hnv
+  rcases List.mem_append.mp hnv with h | h
+  · exact boundsFeatures_ok b n nv h
+  · simp only [List.mem_cons, List.not_mem_nil, or_false] at h
+    subst h; simp [ofBounds, fDuration, fLow, fHigh, fBandwidth, fSegments]
+
 /-- every reported feature is what its name says, computed from `compute_bounds` of the
     same geometry (and the number of parts); each type reports exactly its list of names -/
 theorem C05_features_consistent (g : Geom) (b : Bounds) (ho : Ordered g) (hb : g.bounds = some b) :
@@ -279,52 +309,37 @@ theorem C05_features_consistent (g : Geom) (b : Bounds) (ho : Ordered g) (hb : g
     simp only [Geom.bounds, Geom.boundPts, ptsBounds, List.foldl, Option.some.injEq] at hb
     subst hb
     have hf : features (.point t f) = some [(fDuration, 0), (fLow, f), (fHigh, f), (fBandwidth, 0)] := by
-      simp only [features, hs, Option.map]
+      simp only [features, hs, Option.map, Geom.tag]
+      simp [shapeFeatures]
     refine ⟨_, hf, rfl, ?_⟩
     intro nv hnv
     simp only [List.mem_cons, List.not_mem_nil, or_false] at hnv
     rcases hnv with rfl | rfl | rfl | rfl <;> simp [ofBounds, fDuration, fLow, fHigh, fBandwidth] <;> grind
   | lineString pts =>
     have hf : features (.lineString pts) = some (boundsFeatures b) := by
-      simp only [features, hs, Option.map]
-    refine ⟨_, hf, rfl, ?_⟩
-    intro nv hnv
-    simp only [boundsFeatures, List.mem_cons, List.not_mem_nil, or_false] at hnv
-    rcases hnv with rfl | rfl | rfl | rfl <;> simp [ofBounds, fDuration, fLow, fHigh, fBandwidth]
+      simp only [features, hs, Option.map, Geom.tag]
+      simp [shapeFeatures]
+    exact ⟨_, hf, rfl, boundsFeatures_ok b _⟩
   | polygon rings =>
     have hf : features (.polygon rings) = some (boundsFeatures b) := by
-      simp only [features, hs, Option.map]
-    refine ⟨_, hf, rfl, ?_⟩
-    intro nv hnv
-    simp only [boundsFeatures, List.mem_cons, List.not_mem_nil, or_false] at hnv
-    rcases hnv with rfl | rfl | rfl | rfl <;> simp [ofBounds, fDuration, fLow, fHigh, fBandwidth]
+      simp only [features, hs, Option.map, Geom.tag]
+      simp [shapeFeatures]
+    exact ⟨_, hf, rfl, boundsFeatures_ok b _⟩
   | multiPoint pts =>
-    have hf : features (.multiPoint pts) = some (boundsFeatures b ++ [(fSegments, ((toShape (.multiPoint pts)).numParts : Rat))]) := by
-      simp only [features, hs, Option.map]
-    refine ⟨_, hf, rfl, ?_⟩
-    intro nv hnv
-    simp only [boundsFeatures, List.cons_append, List.nil_append, List.mem_cons, List.not_mem_nil,
-      or_false] at hnv
-    rcases hnv with rfl | rfl | rfl | rfl | rfl <;>
-      simp [ofBounds, fDuration, fLow, fHigh, fBandwidth, fSegments, parts, toShape, Shape.numParts]
+    have hf : features (.multiPoint pts) = some (boundsFeatures b ++ [(fSegments, (pts.length : Rat))]) := by
+      simp only [features, hs, Option.map, Geom.tag]
+      simp [shapeFeatures, toShape, Shape.numParts]
+    exact ⟨_, hf, rfl, segFeatures_ok b _⟩
   | multiLineString ls =>
-    have hf : features (.multiLineString ls) = some (boundsFeatures b ++ [(fSegments, ((toShape (.multiLineString ls)).numParts : Rat))]) := by
-      simp only [features, hs, Option.map]
-    refine ⟨_, hf, rfl, ?_⟩
-    intro nv hnv
-    simp only [boundsFeatures, List.cons_append, List.nil_append, List.mem_cons, List.not_mem_nil,
-      or_false] at hnv
-    rcases hnv with rfl | rfl | rfl | rfl | rfl <;>
-      simp [ofBounds, fDuration, fLow, fHigh, fBandwidth, fSegments, parts, toShape, Shape.numParts]
+    have hf : features (.multiLineString ls) = some (boundsFeatures b ++ [(fSegments, (ls.length : Rat))]) := by
+      simp only [features, hs, Option.map, Geom.tag]
+      simp [shapeFeatures, toShape, Shape.numParts]
+    exact ⟨_, hf, rfl, segFeatures_ok b _⟩
   | multiPolygon ps =>
-    have hf : features (.multiPolygon ps) = some (boundsFeatures b ++ [(fSegments, ((toShape (.multiPolygon ps)).numParts : Rat))]) := by
-      simp only [features, hs, Option.map]
-    refine ⟨_, hf, rfl, ?_⟩
-    intro nv hnv
-    simp only [boundsFeatures, List.cons_append, List.nil_append, List.mem_cons, List.not_mem_nil,
-      or_false] at hnv
-    rcases hnv with rfl | rfl | rfl | rfl | rfl <;>
-      simp [ofBounds, fDuration, fLow, fHigh, fBandwidth, fSegments, parts, toShape, Shape.numParts]
+    have hf : features (.multiPolygon ps) = some (boundsFeatures b ++ [(fSegments, (ps.length : Rat))]) := by
+      simp only [features, hs, Option.map, Geom.tag]
+      simp [shapeFeatures, toShape, Shape.numParts]
+    exact ⟨_, hf, rfl, segFeatures_ok b _⟩
 
 /-- consequences the statement names: durations and bandwidths are never negative, a point
     and a time stamp have zero extent -/
@@ -346,6 +361,28 @@ theorem C05_features_nonneg (g : Geom) (fs : List (String × Rat)) (ho : Ordered
   have := hall nv hnv
   rcases hname with hn | hn <;> rw [hn] at this <;>
     simp [ofBounds, fDuration, fLow, fHigh, fBandwidth] at this <;> grind
+
+/-- the feature list is *determined*: an observed list passes the executable statement
+    `featuresHolds` (right names in order, every value what its name says of the bounds) iff it
+    is the model's list -/
+theorem C05_features_holds_iff (g : Geom) (b : Bounds) (fs : List (String × Rat)) (ho : Ordered g)
+    (hb : g.bounds = some b) : featuresHolds g b fs = true ↔ features g = some fs := by
+  obtain ⟨fs', hf', hn', hv'⟩ := C05_features_consistent g b ho hb
+  simp only [featuresHolds, Bool.and_eq_true, decide_eq_true_eq, List.all_eq_true]
+  constructor
+  · rintro ⟨hn, hv⟩
+    rw [hf']; congr 1
+    exact assoc_ext (fun n => ofBounds n b (parts g)) fs' fs (by rw [hn, hn']) hv' hv
+  · intro h
+    have : fs' = fs := by rw [hf'] at h; simpa using h
+    subst this; exact ⟨hn', hv'⟩
+
+/-- `_COMPUTE_FEATURES` covers every geometry type as soon as it has the nine tags as keys
+    (instantiated at the keys extracted from the code on every run) -/
+theorem C05_feature_table_total (keys : List String) (h : ∀ k ∈ featureTypes, k ∈ keys) (g : Geom) :
+    g.tag ∈ keys := by
+  apply h
+  cases g <;> simp [Geom.tag, featureTypes]
 
 /-! ### anchor points -/
 
